@@ -281,6 +281,58 @@ type listenerCfg struct {
 	HasMw  bool    `json:"has_middleware"`
 	Mw     []mwc   `json:"middleware"`
 	Direct bool    `json:"direct"`
+	// Seq, when present, is the exact sequence of calls made on the listener's builder / config object before
+	// the server is built (read accessors included); nil = the plain flow UsingMiddleWare, AddRoute..., build.
+	Seq []cfgStep `json:"config_call_sequence,omitempty"`
+}
+
+// one call of the configuration phase
+type cfgStep struct {
+	Kind string `json:"call"`                // add | getroutes | getmw | getmisc | usemw | decoymw
+	Idx  int    `json:"add_index,omitempty"` // for add: index into addroute_calls (adds appear in that order)
+	Via  string `json:"via,omitempty"`       // builder | config (the object obtained from Config.GetHttp[s]ServerConfig())
+}
+
+const decoyRec = 99 // the recorder a decoymw step installs; a later usemw must replace it
+
+func (l *listenerCfg) opsCoq() string {
+	var p []string
+	if l.HasMw && !l.hasStep("usemw") {
+		p = append(p, l.setMwCoq())
+	}
+	for _, st := range l.Seq {
+		switch st.Kind {
+		case "add":
+			c := l.Calls[st.Idx]
+			p = append(p, fmt.Sprintf("KAdd %s %s %s", cw.Z(c.M), cw.Z(c.P), opsCoq(c.Ops)))
+		case "getroutes":
+			p = append(p, "KGetRoutes")
+		case "getmw", "getmisc":
+			p = append(p, "KGetMw")
+		case "usemw":
+			if l.HasMw {
+				p = append(p, l.setMwCoq())
+			}
+		case "decoymw":
+			p = append(p, fmt.Sprintf("KSetMw [MRec %d] true", decoyRec))
+		}
+	}
+	return cw.L(p)
+}
+func (l *listenerCfg) setMwCoq() string {
+	q := make([]string, len(l.Mw))
+	for i, m := range l.Mw {
+		q[i] = m.coq()
+	}
+	return fmt.Sprintf("KSetMw %s %s", cw.L(q), cw.B(l.Direct && len(l.Mw) == 1))
+}
+func (l *listenerCfg) hasStep(kind string) bool {
+	for _, st := range l.Seq {
+		if st.Kind == kind {
+			return true
+		}
+	}
+	return false
 }
 
 func (l *listenerCfg) callsCoq() string {
@@ -320,6 +372,9 @@ type request struct {
 	P        int   `json:"path"`
 	H        []int `json:"headers"` // flattened sorted (k,v)
 	B        []int `json:"body"`
+	// Unsized: the body is sent without a Content-Length (HTTP/1.1: Transfer-Encoding: chunked; HTTP/2: DATA
+	// frames without a content-length header); the server then sees r.ContentLength == -1
+	Unsized bool `json:"body_sent_without_content_length"`
 }
 
 type grpcReg struct {
@@ -337,6 +392,7 @@ type scenario struct {
 	Grpc       []grpcReg // RegisterImplementation calls
 	GrpcInit   []grpcReg // registered by an initializer
 	UseGrpc    bool
+	GrpcGetters bool // read accessors of the gRPC config called between the registrations
 	Reflection bool
 	GrpcCalls  []int
 }
@@ -495,6 +551,7 @@ type gen struct {
 	servers  int
 	requests int
 	retries  int
+	gettersCalled int
 	stopTime time.Duration
 	waitTime time.Duration
 }
@@ -521,30 +578,92 @@ func (g *gen) runOnce(sc *scenario) (err error, retry bool) {
 	used := map[int]bool{}
 	b := serverConfig.BuildServerConfig().WithLogger(lg)
 	var httpPort, httpsPort, grpcPort int
+	mkHandler := func(l *listenerCfg, i int) http.HandlerFunc {
+		c := l.Calls[i]
+		return func(w http.ResponseWriter, r *http.Request) {
+			rec.add(7, i)
+			runOps(c.Ops, w, r, rec)
+		}
+	}
+	decoy := func(next http.HandlerFunc) http.HandlerFunc {
+		return func(w http.ResponseWriter, r *http.Request) {
+			rec.add(0, decoyRec)
+			next(w, r)
+			rec.add(1, decoyRec)
+		}
+	}
+	touch := func(rt map[string]map[string]http.HandlerFunc) { // what a caller of GetRoutes typically does: look, count
+		n := 0
+		for _, ps := range rt {
+			for range ps {
+				n++
+			}
+		}
+		g.gettersCalled++
+		_ = n
+	}
 	if sc.HTTP != nil {
 		httpPort = freePort(used)
+		l := sc.HTTP
 		hb := serverConfig.BuildHttpServiceConfig().WithPort(strconv.Itoa(httpPort))
-		if mw := sc.HTTP.middleware(rec, lg); mw != nil {
-			hb = hb.UsingMiddleWare(mw)
+		if l.Seq == nil {
+			if mw := l.middleware(rec, lg); mw != nil {
+				hb = hb.UsingMiddleWare(mw)
+			}
+			for i, c := range l.Calls {
+				hb = hb.AddRoute(methods[c.M], paths[c.P], mkHandler(l, i))
+			}
+			b = b.WithHttpServiceConfig(hb)
+		} else {
+			// attach first: the server configuration and the builder share the config object from here on
+			b = b.WithHttpServiceConfig(hb)
+			obj := b.Build().GetHttpServerConfig()
+			if l.HasMw && !l.hasStep("usemw") {
+				hb = hb.UsingMiddleWare(l.middleware(rec, lg))
+			}
+			for _, st := range l.Seq {
+				switch st.Kind {
+				case "add":
+					c := l.Calls[st.Idx]
+					if st.Via == "config" {
+						obj.AddRoute(methods[c.M], paths[c.P], mkHandler(l, st.Idx))
+					} else {
+						hb = hb.AddRoute(methods[c.M], paths[c.P], mkHandler(l, st.Idx))
+					}
+				case "getroutes":
+					touch(obj.GetRoutes())
+				case "getmw":
+					_ = obj.GetMiddleware()
+					g.gettersCalled++
+				case "getmisc":
+					_ = obj.Port
+					_ = b.Build().GetHttpServerConfig()
+					_ = b.Build().GetLogger()
+					g.gettersCalled++
+				case "usemw":
+					if mw := l.middleware(rec, lg); mw != nil {
+						if st.Via == "config" {
+							obj.SetMiddleware(mw)
+						} else {
+							hb = hb.UsingMiddleWare(mw)
+						}
+					}
+				case "decoymw":
+					obj.SetMiddleware(decoy)
+				}
+			}
 		}
-		for i, c := range sc.HTTP.Calls {
-			i, c := i, c
-			hb = hb.AddRoute(methods[c.M], paths[c.P], func(w http.ResponseWriter, r *http.Request) {
-				rec.add(7, i)
-				runOps(c.Ops, w, r, rec)
-			})
-		}
-		b = b.WithHttpServiceConfig(hb)
 	}
 	if sc.HTTPS != nil {
 		httpsPort = freePort(used)
+		l := sc.HTTPS
 		sb := serverConfig.BuildHttpsServiceConfig().WithPort(strconv.Itoa(httpsPort))
 		if sc.TLSInCfg {
 			sb = sb.WithTlsConfig(&tls.Config{Certificates: []tls.Certificate{g.cert.cert}, MinVersion: tls.VersionTLS12})
 		} else {
 			sb = sb.WithCertFile(g.cert.certFile).WithKeyFile(g.cert.keyFile)
 		}
-		if mw := sc.HTTPS.middleware(rec, lg); mw != nil {
+		useMw := func(mw httpMiddleware.HttpHandlerMiddleware) {
 			// the method is looked up dynamically so that this harness also builds against a tree whose
 			// HTTPS builder cannot configure middleware at all (then the cases show the difference)
 			m := reflect.ValueOf(sb).MethodByName("UsingMiddleWare")
@@ -557,19 +676,76 @@ func (g *gen) runOnce(sc *scenario) (err error, retry bool) {
 				}
 			}
 		}
-		for i, c := range sc.HTTPS.Calls {
-			i, c := i, c
-			sb = sb.AddRoute(methods[c.M], paths[c.P], func(w http.ResponseWriter, r *http.Request) {
-				rec.add(7, i)
-				runOps(c.Ops, w, r, rec)
-			})
+		if l.Seq == nil {
+			if mw := l.middleware(rec, lg); mw != nil {
+				useMw(mw)
+			}
+			for i, c := range l.Calls {
+				sb = sb.AddRoute(methods[c.M], paths[c.P], mkHandler(l, i))
+			}
+			b = b.WithHttpsServiceConfig(sb)
+		} else {
+			b = b.WithHttpsServiceConfig(sb)
+			obj := b.Build().GetHttpsServerConfig()
+			if l.HasMw && !l.hasStep("usemw") {
+				useMw(l.middleware(rec, lg))
+			}
+			for _, st := range l.Seq {
+				switch st.Kind {
+				case "add":
+					c := l.Calls[st.Idx]
+					if st.Via == "config" {
+						obj.AddRoute(methods[c.M], paths[c.P], mkHandler(l, st.Idx))
+					} else {
+						sb = sb.AddRoute(methods[c.M], paths[c.P], mkHandler(l, st.Idx))
+					}
+				case "getroutes":
+					touch(obj.GetRoutes())
+				case "getmw":
+					_ = obj.GetMiddleware()
+					g.gettersCalled++
+				case "getmisc":
+					_ = obj.GetTlsConfig()
+					_ = obj.GetCertFile()
+					_ = obj.GetKeyFile()
+					_ = obj.Port
+					g.gettersCalled++
+				case "usemw":
+					if mw := l.middleware(rec, lg); mw != nil {
+						if st.Via == "config" {
+							obj.SetMiddleware(mw)
+						} else {
+							useMw(mw)
+						}
+					}
+				case "decoymw":
+					obj.SetMiddleware(decoy)
+				}
+			}
 		}
-		b = b.WithHttpsServiceConfig(sb)
 	}
 	if sc.UseGrpc {
 		grpcPort = freePort(used)
 		gb := serverConfig.BuildGrpcServerConfig().WithPort(strconv.Itoa(grpcPort))
-		for _, r := range sc.Grpc {
+		var gobj *serverConfig.GrpcServerConfig
+		if sc.GrpcGetters {
+			b = b.WithGrpcServiceConfig(gb)
+			gobj = b.Build().GetGrpcServerConfig()
+		}
+		for ri, r := range sc.Grpc {
+			if gobj != nil {
+				// read accessors between the registrations; every other registration through the config object
+				for range gobj.GetRegistrations() {
+				}
+				_ = gobj.GetOpts()
+				_ = gobj.GetInitializers()
+				_ = gobj.IsReflectionEnabled()
+				g.gettersCalled++
+				if ri%2 == 1 {
+					gobj.RegisterImplementation(descs[r.D], grpcImpl(r.D, r.Impl))
+					continue
+				}
+			}
 			gb = gb.RegisterImplementation(descs[r.D], grpcImpl(r.D, r.Impl))
 		}
 		for _, r := range sc.GrpcInit {
@@ -630,7 +806,10 @@ func (g *gen) runOnce(sc *scenario) (err error, retry bool) {
 			url = fmt.Sprintf("https://127.0.0.1:%d%s", httpsPort, paths[rq.P])
 		}
 		var body io.Reader
-		if len(rq.B) > 0 {
+		if rq.Unsized {
+			// hide the concrete reader type: net/http then cannot know the length and sends no Content-Length
+			body = struct{ io.Reader }{bytes.NewReader(intsToBytes(rq.B))}
+		} else if len(rq.B) > 0 {
 			body = bytes.NewReader(intsToBytes(rq.B))
 		}
 		hr, e := http.NewRequest(methods[rq.M], url, body)
@@ -736,6 +915,12 @@ func (g *gen) runOnce(sc *scenario) (err error, retry bool) {
 		coq := fmt.Sprintf("CHttp %d %s %s %s %s %s %s %s %s %s %s %s",
 			rq.Listener, l.callsCoq(), l.mwCoq(), cw.B(l.Direct && len(l.Mw) == 1), cw.Z(rq.M), cw.Z(rq.P), cw.L(hs), zl(rq.B),
 			cw.Z(o.st), cw.L(ohs), zl(o.ob), zll(o.ev))
+		seqKey := ""
+		if l.Seq != nil {
+			coq = fmt.Sprintf("CHttpSeq %d %s %s %s %s %s %s %s %s %s",
+				rq.Listener, l.opsCoq(), cw.Z(rq.M), cw.Z(rq.P), cw.L(hs), zl(rq.B), cw.Z(o.st), cw.L(ohs), zl(o.ob), zll(o.ev))
+			seqKey = fmt.Sprintf("|%v", l.Seq)
+		}
 		registered := false
 		for _, c := range l.Calls {
 			if c.P == rq.P && (c.M == rq.M || (c.M == 0 && rq.M == 1)) {
@@ -761,15 +946,31 @@ func (g *gen) runOnce(sc *scenario) (err error, retry bool) {
 		if len(rq.B) > 0 {
 			tags = append(tags, "with-body")
 		}
+		framing := "no body"
+		if rq.Unsized {
+			framing = "no Content-Length (HTTP/1.1 chunked / HTTP/2 unsized)"
+			tags = append(tags, "unsized-body")
+		} else if len(rq.B) > 0 {
+			framing = "Content-Length"
+		}
+		if l.Seq != nil {
+			tags = append(tags, "config-sequence")
+			if l.hasStep("getroutes") {
+				tags = append(tags, "getroutes-between-calls")
+			}
+			if l.hasStep("decoymw") {
+				tags = append(tags, "middleware-replaced")
+			}
+		}
 		desc := map[string]any{
 			"kind": "http-exchange", "listener": lname, "config": l,
-			"request":  map[string]any{"method": methods[rq.M], "path": paths[rq.P], "xv_headers": rq.H, "body": rq.B},
+			"request":  map[string]any{"method": methods[rq.M], "path": paths[rq.P], "xv_headers": rq.H, "body": rq.B, "body_framing": framing},
 			"observed": map[string]any{"status": o.st, "xv_headers": o.oh, "body": o.ob, "events": o.ev, "proto": o.prot},
 			"https_builder_has_UsingMiddleWare": g.httpsMw, "tls_in_config": sc.TLSInCfg,
 			"event_legend": "0 enter i|1 exit i|2 obs method path hdrs|3 read bytes|4 w.Header()|5 logger request m p body|6 logger response m p status body|7 handler(index of AddRoute call)",
 		}
 		g.w.Add(cw.Case{Coq: coq, Desc: desc, Tags: tags,
-			Key:     fmt.Sprintf("%s|%s|%s|%v|%d %d %v %v", lname, l.callsCoq(), l.mwCoq(), l.Direct, rq.M, rq.P, rq.H, rq.B),
+			Key:     fmt.Sprintf("%s|%s|%s|%v|%d %d %v %v %v%s", lname, l.callsCoq(), l.mwCoq(), l.Direct, rq.M, rq.P, rq.H, rq.B, rq.Unsized, seqKey),
 			Trivial: len(l.Calls) == 0})
 	}
 	allRegs := append(append([]grpcReg{}, sc.Grpc...), sc.GrpcInit...)
@@ -785,7 +986,7 @@ func (g *gen) runOnce(sc *scenario) (err error, retry bool) {
 			tags = append(tags, "grpc-unimplemented")
 		}
 		g.w.Add(cw.Case{Coq: fmt.Sprintf("CGrpc %s %s %s", cw.L(rs), cw.Z(o.d), cw.Z(o.res)),
-			Desc: map[string]any{"kind": "grpc-call", "registrations": sc.Grpc, "registered_by_initializer": sc.GrpcInit,
+			Desc: map[string]any{"kind": "grpc-call", "registrations": sc.Grpc, "registered_by_initializer": sc.GrpcInit, "getters_called_between_registrations": sc.GrpcGetters,
 				"reflection": sc.Reflection, "called": grpcMethod(o.d), "answering_impl_or_-1": o.res},
 			Tags: tags, Key: fmt.Sprintf("grpc|%v|%v|%v|%d", sc.Grpc, sc.GrpcInit, sc.Reflection, o.d), Trivial: len(allRegs) == 0})
 	}
@@ -854,14 +1055,54 @@ func (g *gen) randListener() *listenerCfg {
 	l := &listenerCfg{}
 	nr := g.rng.Intn(6)
 	for i := 0; i < nr; i++ {
-		l.Calls = append(l.Calls, route{M: g.rng.Intn(5), P: g.rng.Intn(5), Ops: g.randOps(6, true)})
+		l.Calls = append(l.Calls, route{M: g.rng.Intn(len(methods)), P: g.rng.Intn(len(paths)), Ops: g.randOps(6, true)})
 	}
 	if g.rng.Intn(5) > 0 {
 		l.HasMw = true
 		l.Mw = g.randMw(5)
 		l.Direct = len(l.Mw) == 1 && g.rng.Intn(2) == 0
 	}
+	if g.rng.Intn(2) == 0 {
+		g.randSeq(l)
+	}
 	return l
+}
+
+// randSeq turns the configuration of l into an explicit call sequence: the adds in order, through the builder or
+// the config object, with read accessors in between, the middleware set at a random position (possibly
+// after a different middleware had been set)
+func (g *gen) randSeq(l *listenerCfg) {
+	via := func() string {
+		if g.rng.Intn(2) == 0 {
+			return "config"
+		}
+		return "builder"
+	}
+	getter := func() {
+		for g.rng.Intn(3) > 0 {
+			l.Seq = append(l.Seq, cfgStep{Kind: []string{"getroutes", "getroutes", "getmw", "getmisc"}[g.rng.Intn(4)]})
+		}
+	}
+	l.Seq = []cfgStep{}
+	mwAt := g.rng.Intn(len(l.Calls) + 1)
+	decoyAt := -1
+	if l.HasMw && mwAt > 0 && g.rng.Intn(3) == 0 {
+		decoyAt = g.rng.Intn(mwAt)
+	}
+	for i := 0; i <= len(l.Calls); i++ {
+		getter()
+		if i == decoyAt {
+			l.Seq = append(l.Seq, cfgStep{Kind: "decoymw"})
+			getter()
+		}
+		if i == mwAt && l.HasMw {
+			l.Seq = append(l.Seq, cfgStep{Kind: "usemw", Via: via()})
+			getter()
+		}
+		if i < len(l.Calls) {
+			l.Seq = append(l.Seq, cfgStep{Kind: "add", Idx: i, Via: via()})
+		}
+	}
 }
 func (g *gen) randReq(listener int, l *listenerCfg) request {
 	rq := request{Listener: listener, H: []int{}, B: []int{}}
@@ -881,6 +1122,9 @@ func (g *gen) randReq(listener int, l *listenerCfg) request {
 	}
 	if rq.M != 1 && g.rng.Intn(3) > 0 {
 		rq.B = g.randBytes(12)
+	}
+	if rq.M != 1 && (len(rq.B) > 0 && g.rng.Intn(3) == 0 || g.rng.Intn(12) == 0) {
+		rq.Unsized = true
 	}
 	return rq
 }
@@ -965,6 +1209,29 @@ func main() {
 	must(g.run(&scenario{Group: "corpus", HTTP: echoPost, HTTPS: echoPost, Reqs: []request{{Listener: 0, M: 2, P: 1, H: []int{}, B: []int{104, 105}}, {Listener: 1, M: 2, P: 1, H: []int{}, B: []int{104, 105}}}}))
 	must(g.run(&scenario{Group: "corpus", HTTP: recOnly, HTTPS: recOnly, Reqs: []request{{Listener: 1, M: 0, P: 1, H: []int{}, B: []int{}}, {Listener: 0, M: 0, P: 1, H: []int{}, B: []int{}}}}))
 
+	for _, h2 := range []bool{false, true} {
+		for _, mws := range [][]mwc{{{Kind: "logreq"}}, {{Kind: "logresp"}, {Kind: "logreq"}, {Kind: "rec", I: 1}}} {
+			l := &listenerCfg{Calls: []route{{M: 2, P: 1, Ops: []hop{{Kind: "echo"}}}, {M: 3, P: 1, Ops: []hop{{Kind: "read", K: 2}, {Kind: "readall"}}}}, HasMw: true, Mw: mws,
+				Direct: len(mws) == 1 && h2}
+			must(g.run(&scenario{Group: "unsized", HTTP: l, HTTPS: l, H2: h2, TLSInCfg: h2, Reqs: []request{
+				{Listener: 0, M: 2, P: 1, H: []int{}, B: []int{104, 105, 0, 255}, Unsized: true}, {Listener: 1, M: 2, P: 1, H: []int{}, B: []int{104, 105, 0, 255}, Unsized: true},
+				{Listener: 0, M: 3, P: 1, H: []int{1, 2}, B: []int{7, 8, 9}, Unsized: true}, {Listener: 1, M: 3, P: 1, H: []int{1, 2}, B: []int{7, 8, 9}, Unsized: true},
+				{Listener: 0, M: 2, P: 1, H: []int{}, B: []int{}, Unsized: true}, {Listener: 1, M: 2, P: 1, H: []int{}, B: []int{}, Unsized: true}}}))
+		}
+	}
+	// the seeded-change witness for configuration sequences: GetRoutes, then AddRoute under a method already present
+	{
+		l := &listenerCfg{Calls: []route{{M: 0, P: 0, Ops: []hop{{Kind: "write", Bs: []int{1}}}}, {M: 0, P: 1, Ops: []hop{{Kind: "write", Bs: []int{2}}}}, {M: 0, P: 0, Ops: []hop{{Kind: "write", Bs: []int{3}}}}},
+			Seq: []cfgStep{{Kind: "add", Idx: 0, Via: "builder"}, {Kind: "getroutes"}, {Kind: "add", Idx: 1, Via: "builder"}, {Kind: "add", Idx: 2, Via: "config"}}}
+		sc := &scenario{Group: "cfgseq", HTTP: l, HTTPS: l}
+		for ls := 0; ls < 2; ls++ {
+			for _, mp := range [][2]int{{0, 0}, {0, 1}, {2, 1}, {0, 2}} {
+				sc.Reqs = append(sc.Reqs, request{Listener: ls, M: mp[0], P: mp[1], H: []int{}, B: []int{}})
+			}
+		}
+		must(g.run(sc))
+	}
+
 	// --- G1: routing, exhaustive: every subset of {GET,HEAD,POST} x {/p0,/p1}, every request of
 	//         {GET,HEAD,POST,PUT} x {/p0,/p1,/p2}, on both listeners ---
 	univ := [][2]int{{0, 0}, {1, 0}, {2, 0}, {0, 1}, {1, 1}, {2, 1}}
@@ -999,6 +1266,83 @@ func main() {
 		for _, m := range []int{0, 1, 2} {
 			for _, p := range []int{0, 1} {
 				sc.Reqs = append(sc.Reqs, request{Listener: k % 2, M: m, P: p, H: []int{}, B: []int{}})
+			}
+		}
+		must(g.run(sc))
+	}
+
+	// --- G1c: a second exhaustive universe: other methods, paths that share prefixes, HEAD on GET routes ---
+	univ2 := [][2]int{{0, 3}, {3, 3}, {0, 4}, {4, 7}, {6, 0}} // GET /a/b, PUT /a/b, GET /a/b/c, DELETE /p0/q, OPTIONS /p0
+	for si, sub := range subsetsOf(len(univ2)) {
+		l := &listenerCfg{}
+		for _, i := range sub {
+			l.Calls = append(l.Calls, route{M: univ2[i][0], P: univ2[i][1], Ops: []hop{{Kind: "write", Bs: []int{20 + i}}}})
+		}
+		sc := &scenario{Group: "route2", HTTP: l, HTTPS: l, TLSInCfg: si%2 == 0, H2: si%4 < 2}
+		k := 0
+		for _, m := range []int{0, 1, 3, 4, 6} {
+			for _, p := range []int{3, 4, 7, 0} {
+				sc.Reqs = append(sc.Reqs, request{Listener: (k + si) % 2, M: m, P: p, H: []int{}, B: []int{}})
+				k++
+			}
+		}
+		must(g.run(sc))
+	}
+	// --- G1d: configuration call SEQUENCES, exhaustive: every sequence up to length SL over
+	//          {AddRoute(GET,/p0,h) [a second time = replacement], AddRoute(GET,/p1,h), AddRoute(POST,/p0,h), GetRoutes}
+	//          that contains a GetRoutes and an AddRoute; adds alternate between builder and config object ---
+	SL := 3
+	if thorough {
+		SL = 5
+	}
+	alphaPairs := [][2]int{{0, 0}, {0, 1}, {2, 0}} // symbol k < 3: AddRoute(alphaPairs[k]); symbol 3: GetRoutes
+	var seqs [][]int
+	var recSeq func(cur []int)
+	recSeq = func(cur []int) {
+		if len(cur) > 0 {
+			hasGet, hasAdd := false, false
+			for _, x := range cur {
+				if x == 3 {
+					hasGet = true
+				} else {
+					hasAdd = true
+				}
+			}
+			if hasGet && hasAdd {
+				seqs = append(seqs, append([]int{}, cur...))
+			}
+		}
+		if len(cur) == SL {
+			return
+		}
+		for x := 0; x < 4; x++ {
+			recSeq(append(cur, x))
+		}
+	}
+	recSeq(nil)
+	for qi, sq := range seqs {
+		l := &listenerCfg{Seq: []cfgStep{}}
+		for j, x := range sq {
+			if x == 3 {
+				l.Seq = append(l.Seq, cfgStep{Kind: "getroutes"})
+				continue
+			}
+			l.Calls = append(l.Calls, route{M: alphaPairs[x][0], P: alphaPairs[x][1], Ops: []hop{{Kind: "write", Bs: []int{40 + len(l.Calls)}}}})
+			via := "builder"
+			if (j+qi)%2 == 1 {
+				via = "config"
+			}
+			l.Seq = append(l.Seq, cfgStep{Kind: "add", Idx: len(l.Calls) - 1, Via: via})
+		}
+		if qi%3 == 1 { // with a middleware configured after the reads
+			l.HasMw, l.Mw = true, []mwc{{Kind: "rec", I: 1}}
+			l.Seq = append(l.Seq, cfgStep{Kind: "getmw"}, cfgStep{Kind: "usemw", Via: []string{"builder", "config"}[qi%2]}, cfgStep{Kind: "getmw"}, cfgStep{Kind: "getroutes"})
+		}
+		sc := &scenario{Group: "cfgseq", HTTP: l, HTTPS: l, TLSInCfg: qi%2 == 0, H2: qi%4 == 0}
+		for k, mp := range [][2]int{{0, 0}, {0, 1}, {2, 0}, {2, 1}, {1, 1}} {
+			sc.Reqs = append(sc.Reqs, request{Listener: (k + qi) % 2, M: mp[0], P: mp[1], H: []int{}, B: []int{}})
+			if k < 3 {
+				sc.Reqs = append(sc.Reqs, request{Listener: (k + qi + 1) % 2, M: mp[0], P: mp[1], H: []int{}, B: []int{}})
 			}
 		}
 		must(g.run(sc))
@@ -1044,7 +1388,7 @@ func main() {
 				if (pi+li)%2 == 0 || pi == 0 {
 					body = []int{104, 105, 33, 0, 255}
 				}
-				sc.Reqs = append(sc.Reqs, request{Listener: (li + pi) % 2, M: 2, P: pi, H: []int{2, 40 + pi}, B: body})
+				sc.Reqs = append(sc.Reqs, request{Listener: (li + pi) % 2, M: 2, P: pi, H: []int{2, 40 + pi}, B: body, Unsized: len(body) > 0 && (li/2)%2 == 1})
 			}
 			must(g.run(sc))
 		}
@@ -1083,7 +1427,8 @@ func main() {
 		l := &listenerCfg{Calls: []route{{M: 2, P: 0, Ops: []hop{{Kind: "read", K: 100}, {Kind: "echo"}}}}, HasMw: true,
 			Mw: []mwc{{Kind: "logresp"}, {Kind: "rec", I: 1}, {Kind: "logreq"}}}
 		must(g.run(&scenario{Group: "bigbody", HTTP: l, HTTPS: l, H2: true,
-			Reqs: []request{{Listener: 0, M: 2, P: 0, H: []int{}, B: body}, {Listener: 1, M: 2, P: 0, H: []int{}, B: body}}}))
+			Reqs: []request{{Listener: 0, M: 2, P: 0, H: []int{}, B: body}, {Listener: 1, M: 2, P: 0, H: []int{}, B: body},
+				{Listener: 0, M: 2, P: 0, H: []int{}, B: body, Unsized: true}, {Listener: 1, M: 2, P: 0, H: []int{}, B: body, Unsized: true}}}))
 	}
 
 	// bodies far above typical internal buffers/caps (64 KiB and more), as long runs so that the case stays small
@@ -1096,10 +1441,10 @@ func main() {
 		for i := range body {
 			body[i] = 97 + (i/(sz/3+1))%3
 		}
-		for _, mws := range [][]mwc{{{Kind: "logresp"}, {Kind: "rec", I: 1}, {Kind: "logreq"}}, {{Kind: "logreq"}, {Kind: "logresp"}}, {{Kind: "rec", I: 1}}} {
+		for mi, mws := range [][]mwc{{{Kind: "logresp"}, {Kind: "rec", I: 1}, {Kind: "logreq"}}, {{Kind: "logreq"}, {Kind: "logresp"}}, {{Kind: "rec", I: 1}}} {
 			l := &listenerCfg{Calls: []route{{M: 2, P: 0, Ops: []hop{{Kind: "echo"}}}}, HasMw: true, Mw: mws}
 			must(g.run(&scenario{Group: "hugebody", HTTP: l, HTTPS: l, H2: true,
-				Reqs: []request{{Listener: 0, M: 2, P: 0, H: []int{}, B: body}, {Listener: 1, M: 2, P: 0, H: []int{}, B: body}}}))
+				Reqs: []request{{Listener: 0, M: 2, P: 0, H: []int{}, B: body, Unsized: mi == 1}, {Listener: 1, M: 2, P: 0, H: []int{}, B: body, Unsized: mi != 1}}}))
 		}
 	}
 
@@ -1108,7 +1453,7 @@ func main() {
 		if !thorough && si%2 == 1 && si > 8 && si < 31 {
 			continue
 		}
-		sc := &scenario{Group: "grpc", UseGrpc: true, Reflection: si%2 == 0, GrpcCalls: []int{0, 1, 2, 3, 4}}
+		sc := &scenario{Group: "grpc", UseGrpc: true, Reflection: si%2 == 0, GrpcCalls: []int{0, 1, 2, 3, 4}, GrpcGetters: si%3 != 1}
 		for j, d := range sub {
 			impl := 10*d + 1
 			if d == 0 && si%4 < 2 {
@@ -1133,6 +1478,8 @@ func main() {
 
 	g.w.Extra["scope"] = fmt.Sprintf("routing: all %d subsets of 6 (method,path) pairs x 12 requests x 2 listeners, %d repeated-AddRoute configs; middleware: all %d lists over {LogRequest,LogResponse,rec1,rec2} up to length %d x %d handler programs; %d random configurations x 8 requests; gRPC: subsets of %d descriptors; HTTPS with files and with tls.Config, HTTP/1.1 and HTTP/2",
 		1<<len(univ), nDup, len(lists), L, len(progs), nRand, len(descs))
+	g.w.Extra["scope"] = g.w.Extra["scope"].(string) + fmt.Sprintf("; second routing universe: all %d subsets of 5 pairs (GET/PUT /a/b, GET /a/b/c, DELETE /p0/q, OPTIONS /p0) x 20 requests; configuration call sequences: all %d sequences up to length %d over {3 AddRoute symbols, GetRoutes} with a GetRoutes and an AddRoute (adds via builder and via the config object, middleware set after reads), half of the random configurations as call sequences with getters and replaced middleware; request bodies with and without Content-Length (chunked / unsized h2)", 1<<len(univ2), len(seqs), SL)
+	g.w.Extra["read_accessor_calls_during_configuration"] = g.gettersCalled
 	g.w.Extra["servers_started"] = g.servers
 	g.w.Extra["requests_sent"] = g.requests
 	g.w.Extra["scenario_retries"] = g.retries
